@@ -198,7 +198,8 @@ class BundleContainer(object):
                 blk_num = Bundle.BLOCK_NUM_PAYLOAD
             else:
                 blk_num = self.get_block_num()
-            blk.overloaded_fields['block_num'] = blk_num
+            # not in overloaded_fields, which scapy shares between all blocks of the same type
+            blk.fields['block_num'] = blk_num
         return blk_num
 
     def sort_block_num(self) -> None:
